@@ -1,3 +1,8 @@
+import Mimium.Gen.Consts
 import Mimium.Model.StateTree
-import Mimium.Model.StateTreeIO
 import Mimium.Model.StateTreeCheck
+import Mimium.Model.StateTreeIO
+import Mimium.Proofs.StateTree
+import Mimium.Proofs.StateTreeApply
+import Mimium.Proofs.StateTreeDiff
+import Mimium.Props.C08
